@@ -121,6 +121,15 @@ static std::string scenario_write_with_a_broken_cell(int where) {
     for (auto& c : L) c->clear_data(); return out;
 }
 
+
+// (e'') an error in ONE of the two output sections only (the file of that section cannot be opened; the other can): the caller receives the writer's exception whichever section fails
+static std::string scenario_write_one_file_unwritable(int which) {
+    std::vector<cell_ptr> L; for (int i = 0; i < 2; i++) { cell_ptr c = sc::make_cell(sc::translated(sc::icosphere(1), 3.0 * i, 0, 0), (unsigned)i, sc::make_cell_type(0, 3), true); c->set_local_id(i); c->update_all_face_normals_and_areas(); c->area_ = c->compute_area(); c->volume_ = c->compute_volume(); L.push_back(c); }
+    std::string dir = sw::scratch_root() + "/c15wu"; std::filesystem::create_directories(dir); const std::string good = dir + "/ok.vtk", bad = dir + "/no_such_directory/x.vtk"; std::string out = "returned";
+    try { mesh_writer::write(which == 0 ? bad : good, which == 1 ? bad : good, L); } catch (mesh_writer_exception& e) { out = "mesh_writer_exception"; } catch (std::exception& e) { out = std::string("other exception: ") + e.what(); }
+    for (auto& c : L) c->clear_data(); return out;
+}
+
 // ------------------------------------------------------------------------------------------------ (f) the contact phase of the build's contact model on interpenetrating cells
 // Interacting cells are outside the bit-identity clause (the order of the atomic additions is free), so the outcome is judged by what every order must respect: the contact forces
 // add up to zero and agree with the single-threaded run to rounding.  The same executions run under ThreadSanitizer: an unsynchronised access to a node shared by two cells is a race
@@ -220,6 +229,7 @@ static void explore(Result& R) {
     for (int kind : {2, 0, 5, 1}) for (int where = 0; where < 3; where++) { if (!th && kind != 2 && !(kind == 0 && where == 1)) continue; Sub d{"divide-with-a-cell-that-cannot-divide kind=" + std::to_string(kind) + " place=" + std::to_string(where) + ", isolated processes, T=2", 2, th ? 2 : 1, [kind, where] { return scenario_divide_awkward(kind, where); }, nullptr, hash_list, "@serial"}; d.isolated = functional; subs.push_back(d); }
     }
     if (CONTACT_MODEL_INDEX == 1) for (int where = 0; where < 3; where++) { Sub w{"mesh_writer::write with a cell whose compaction fails at place " + std::to_string(where) + ", isolated processes, T=2", 2, th ? 2 : 1, [where] { return scenario_write_with_a_broken_cell(where); }, [](const std::string& o) { return o == "mesh_integrity_exception compacted compacted" ? std::string() : ("exception-of-a-parallel-phase-does-not-reach-the-caller-as-thrown-after-all-threads-finished: " + o); }, nullptr, ""}; w.isolated = functional; subs.push_back(w); }
+    if (CONTACT_MODEL_INDEX == 1) for (int which = 0; which < 2; which++) for (int T : {1, 2}) subs.push_back({std::string("mesh_writer::write, the ") + (which ? "face" : "cell") + "-data file cannot be opened, T=" + std::to_string(T), T, 1, [which] { return scenario_write_one_file_unwritable(which); }, [](const std::string& o) { return o == "mesh_writer_exception" ? std::string() : ("exception-of-a-parallel-phase-does-not-reach-the-caller-as-thrown-after-all-threads-finished: " + o); }, nullptr, ""});
     // (g) (early: cheap, and decisive for the identity clauses)
     if (CONTACT_MODEL_INDEX == 1) {
     for (int mask : {1, 2, 3}) { if (!th && mask == 3) continue; subs.push_back({"solver-iteration-with-division ready=" + std::to_string(mask) + " T=2", 2, th ? 1 : 0, [mask] { return scenario_solver_division(mask); }, nullptr, hash_world, "@serial"}); }
